@@ -100,6 +100,21 @@ impl rand::RngCore for FiniteTape {
     }
 }
 impl rand::CryptoRng for FiniteTape {}
+/// a generator whose fallible interface fails at its k-th call (leaving the buffer untouched) while the infallible one keeps working - a
+/// non-blocking entropy source that is "not ready".  Code that asks through `try_fill_bytes` must hand the error on, not carry on with the buffer
+pub struct FlakyTry { inner: StdRng, k: u32, calls: u32, pub failed: bool }
+impl FlakyTry { pub fn new(seed: u64, k: u32) -> Self { FlakyTry { inner: StdRng::seed_from_u64(seed), k, calls: 0, failed: false } } }
+impl rand::RngCore for FlakyTry {
+    fn next_u32(&mut self) -> u32 { self.inner.next_u32() }
+    fn next_u64(&mut self) -> u64 { self.inner.next_u64() }
+    fn fill_bytes(&mut self, dest: &mut [u8]) { self.inner.fill_bytes(dest) }
+    fn try_fill_bytes(&mut self, dest: &mut [u8]) -> Result<(), rand::Error> {
+        self.calls += 1;
+        if self.calls == self.k { self.failed = true; return Err(rand::Error::new("entropy source not ready")); }
+        self.inner.fill_bytes(dest); Ok(())
+    }
+}
+impl rand::CryptoRng for FlakyTry {}
 
 // ------------------------------------------------------------------------------------------------ generators
 macro_rules! gen_c01 {
@@ -296,8 +311,8 @@ macro_rules! gen_c05 {
                 if cf.is_ok() != must { acc.hit(stringify!($cs), what, json!({"accepted": cf.is_ok(), "expected": must})); }
             }
             // full matrix: identities at registration x identities at login (both login sides agree); success iff the EFFECTIVE identities are equal
-            let opts_c: [Option<&[u8]>; 3] = [None, Some(b"alice"), Some(b"carol")];
-            let opts_s: [Option<&[u8]>; 3] = [None, Some(b"bob"), Some(b"dave")];
+            let opts_c: [Option<&[u8]>; 4] = [None, Some(b""), Some(b"alice"), Some(b"carol")];
+            let opts_s: [Option<&[u8]>; 4] = [None, Some(b""), Some(b"bob"), Some(b"dave")];
             for rc in opts_c { for rs in opts_s {
                 let regp = Params { pw: b"pw", cred: b"id", idu: rc, ids: rs, ctx: None };
                 let (setup_m, file_m, _e, _k) = register!($cs, &mut rng, regp);
@@ -382,6 +397,19 @@ macro_rules! gen_c08 {
                 }
             }
             let c = ClientLogin::<$cs>::start(&mut rng, p.pw)?;
+            // the fake record is drawn from the caller's tape like a real response: on a finite tape that runs dry no fake response may be produced
+            for len in (0..=256usize).step_by(8) {
+                acc.tried += 1;
+                let mut tape = FiniteTape::new(8900 + len as u64, len);
+                let done = std::panic::catch_unwind(std::panic::AssertUnwindSafe(|| ServerLogin::<$cs>::start(&mut tape, &setup, None, c.message.clone(), p.cred, ServerLoginStartParameters::default()).is_ok()));
+                if let Ok(true) = done { if tape.requested > len { acc.hit(stringify!($cs), "a fake login response was produced although the caller's tape ran dry (some fake field is not random)", json!({"tape_len": len, "bytes_requested": tape.requested})); break; } }
+            }
+            for k in 1..=8u32 {
+                acc.tried += 1;
+                let mut fl = FlakyTry::new(8950 + k as u64, k);
+                let done = std::panic::catch_unwind(std::panic::AssertUnwindSafe(|| ServerLogin::<$cs>::start(&mut fl, &setup, None, c.message.clone(), p.cred, ServerLoginStartParameters::default()).is_ok()));
+                if let Ok(true) = done { if fl.failed { acc.hit(stringify!($cs), "a fake login response was produced although the caller's generator reported an error for one of its draws (some fake field is not random)", json!({"failing_fallible_call": k})); break; } }
+            }
             let cb = c.state.serialize();
             let real = ServerLogin::<$cs>::start(&mut rng, &setup, Some(file), c.message.clone(), p.cred, ServerLoginStartParameters::default())?;
             let fake = ServerLogin::<$cs>::start(&mut rng, &setup, None, c.message.clone(), p.cred, ServerLoginStartParameters::default())?;
@@ -675,6 +703,18 @@ macro_rules! gen_c14_c17 {
             let mut seen: Vec<std::collections::HashSet<Vec<u8>>> = (0..5).map(|_| std::collections::HashSet::new()).collect();
             let names = ["server setup (OPRF seed / key pairs)", "registration request (blind)", "registration upload (envelope nonce)", "credential request (blind, client nonce, ephemeral key)", "credential response (masking nonce, server nonce, ephemeral key)"];
             let mut seeds: std::collections::HashSet<Vec<u8>> = std::collections::HashSet::new();
+            // ... also through the other constructor (a caller-supplied static key pair): seed and fake key still come from the tape
+            {
+                let kp = ServerSetup::<$cs>::new(&mut StdRng::seed_from_u64(169999)).keypair().clone();
+                let mut seen2: std::collections::HashSet<Vec<u8>> = std::collections::HashSet::new();
+                for t in 0..64u64 {
+                    acc.tried += 1;
+                    let v = ServerSetup::<$cs>::new_with_key(&mut StdRng::seed_from_u64(171000 + t), kp.clone()).serialize().to_vec();
+                    let sk = <<$cs as CipherSuite>::KeGroup as opaque_ke::key_exchange::group::KeGroup>::SkLen::to_usize();
+                    let nh = v.len() - 2 * sk;
+                    if !seen2.insert(v[..nh].to_vec()) { acc.hit(stringify!($cs), "the server OPRF seed repeats across independent tapes (ServerSetup::new_with_key)", json!({"tape": t, "seed": hx(&v[..nh])})); break; }
+                }
+            }
             for t in 0..64u64 {
                 acc.tried += 1;
                 if let Ok(v) = run(170000 + t) {
@@ -696,15 +736,27 @@ macro_rules! gen_c14_c17 {
             let creq = ClientLogin::<$cs>::start(&mut StdRng::seed_from_u64(17503), p.pw);
             if let (Ok(file), Ok(creq)) = (file, creq) {
                 for len in (0..=256usize).step_by(8) {
-                    for which in 0..3u8 {
+                    for which in 0..4u8 {
                         acc.tried += 1;
                         let mut tape = FiniteTape::new(17600 + len as u64, len);
                         let done = std::panic::catch_unwind(std::panic::AssertUnwindSafe(|| match which {
                             0 => ClientLogin::<$cs>::start(&mut tape, p.pw).is_ok(),
                             1 => ServerLogin::<$cs>::start(&mut tape, &setup, Some(file.clone()), creq.message.clone(), p.cred, ServerLoginStartParameters::default()).is_ok(),
+                            2 => ServerLogin::<$cs>::start(&mut tape, &setup, None, creq.message.clone(), p.cred, ServerLoginStartParameters::default()).is_ok(),
                             _ => ClientRegistration::<$cs>::start(&mut tape, p.pw).is_ok(),
                         }));
-                        let opname = ["ClientLogin::start", "ServerLogin::start", "ClientRegistration::start"][which as usize];
+                        let opname = ["ClientLogin::start", "ServerLogin::start", "ServerLogin::start without a record", "ClientRegistration::start"][which as usize];
+                        if len < 48 {   // (re-using the sweep: the first few values of `len` also serve as the index k of the failing fallible call)
+                            let k = (len / 8 + 1) as u32;
+                            let mut fl = FlakyTry::new(17700 + k as u64, k);
+                            let done2 = std::panic::catch_unwind(std::panic::AssertUnwindSafe(|| match which {
+                                0 => ClientLogin::<$cs>::start(&mut fl, p.pw).is_ok(),
+                                1 => ServerLogin::<$cs>::start(&mut fl, &setup, Some(file.clone()), creq.message.clone(), p.cred, ServerLoginStartParameters::default()).is_ok(),
+                                2 => ServerLogin::<$cs>::start(&mut fl, &setup, None, creq.message.clone(), p.cred, ServerLoginStartParameters::default()).is_ok(),
+                                _ => ClientRegistration::<$cs>::start(&mut fl, p.pw).is_ok(),
+                            }));
+                            if let Ok(true) = done2 { if fl.failed { acc.hit(stringify!($cs), "an operation completed although the caller's generator reported an error for one of its draws (error swallowed: that value did not come from the tape)", json!({"operation": opname, "failing_fallible_call": k})); } }
+                        }
                         if let Ok(true) = done { if tape.requested > len {
                             acc.hit(stringify!($cs), "an operation completed although the caller's tape ran dry (a random value did not come from the tape)", json!({"operation": opname, "tape_len": len, "bytes_requested": tape.requested}));
                         } }
@@ -914,6 +966,15 @@ macro_rules! gen_c07 {
                 match out {
                     Ok(cf) => {
                         if !matched { acc.hit(stringify!($cs), "client accepted a response of another session / user", json!({"client": ci, "request": ri, "record": sfi})); }
+                        // (the pending server state may have been parked through serde in between: same outcome, same key)
+                        if let Ok(st) = ServerLogin::<$cs>::deserialize(sstate) {
+                            if let Ok(bytes) = bincode::serialize(&st) { if let Ok(st2) = bincode::deserialize::<ServerLogin<$cs>>(&bytes) {
+                                match st2.finish(cf.message.clone()) {
+                                    Ok(k) => if k.session_key != cf.session_key { acc.hit(stringify!($cs), "keys differ within a completed session when the pending server state went through serde", json!({})); },
+                                    Err(_) => acc.hit(stringify!($cs), "matched conversation not completed by a server state that went through serde", json!({})),
+                                }
+                            } }
+                        }
                         let sf = ServerLogin::<$cs>::deserialize(sstate)?.finish(cf.message.clone());
                         match sf { Ok(k) => { if k.session_key != cf.session_key { acc.hit(stringify!($cs), "keys differ within a completed session", json!({})); } keys.push(cf.session_key.to_vec()); }
                                    Err(_) => acc.hit(stringify!($cs), "matched conversation not completed by the server", json!({})) }
